@@ -87,6 +87,37 @@ private:
     std::shared_ptr<std::uint64_t> count_;
 };
 
+
+// synthetic engine with an arbitrary output range [Min, Max] (Max - Min + 1 may be any number up to 2^64)
+template <std::uint64_t Min, std::uint64_t Max>
+class range_engine
+{
+public:
+    using result_type = std::uint64_t;
+
+    explicit range_engine(std::uint64_t seed = 1) : state_(seed) {}
+
+    static constexpr result_type min() { return Min; }
+    static constexpr result_type max() { return Max; }
+
+    result_type operator()()
+    {
+        state_ = state_ * 6364136223846793005ull + 1442695040888963407ull;
+        std::uint64_t const r = splitmix64(state_);
+        return (Max - Min == ~0ull) ? r : Min + r % (Max - Min + 1);
+    }
+
+    void discard(unsigned long long n) { for (unsigned long long i = 0; i != n; ++i) { (void) (*this)(); } }
+
+    friend bool operator==(range_engine const& a, range_engine const& b) { return a.state_ == b.state_; }
+    friend bool operator!=(range_engine const& a, range_engine const& b) { return !(a == b); }
+    friend std::ostream& operator<<(std::ostream& o, range_engine const& e) { return o << e.state_; }
+    friend std::istream& operator>>(std::istream& i, range_engine& e) { return i >> e.state_; }
+
+private:
+    std::uint64_t state_;
+};
+
 // how many raw draws one generate_canonical<T, digits> costs on engine type E (measured, not derived)
 template <typename T, typename E>
 inline std::size_t draws_per_canonical()
